@@ -9,7 +9,10 @@
 (* written by a final flush.                                               *)
 (***************************************************************************)
 EXTENDS Naturals, Sequences
-CONSTANTS BCfgSet       \* [lens: sequence of record lengths, mem: flush threshold]
+CONSTANTS FinalRule,    \* "buffer_nonempty": the final flush happens iff records are still buffered (all four writers after the repair of
+                        \* finding F5). "total_positive": coverage's pinned rule, which loses a last batch of zero-length records -
+                        \* kept only to show that DoneInv detects it at design level
+          BCfgSet       \* [lens: sequence of record lengths, mem: flush threshold]
 VARIABLES bcfg, rd,     \* configuration; number of records read
           buf, total,   \* ordinals waiting in the buffer; their accumulated length
           must,         \* the threshold was reached: the next step is a flush
@@ -35,10 +38,11 @@ FlushFull == /\ must
              /\ UNCHANGED <<bcfg, rd, fin>>
 
 \* end of input: flush iff something is still buffered
-FinalFlush == /\ ~fin /\ ~must /\ rd = N /\ buf # <<>>
+WantsFinal == IF FinalRule = "total_positive" THEN total > 0 ELSE buf # <<>>
+FinalFlush == /\ ~fin /\ ~must /\ rd = N /\ WantsFinal
               /\ rows' = rows \o buf /\ buf' = <<>> /\ total' = 0 /\ fin' = TRUE
               /\ UNCHANGED <<bcfg, rd, must>>
-FinalNone == /\ ~fin /\ ~must /\ rd = N /\ buf = <<>>
+FinalNone == /\ ~fin /\ ~must /\ rd = N /\ ~WantsFinal
              /\ fin' = TRUE /\ UNCHANGED <<bcfg, rd, buf, total, must, rows>>
 
 BNext == Read \/ FlushFull \/ FinalFlush \/ FinalNone
